@@ -255,6 +255,9 @@ func (p *Packet) Payload() ([]byte, error) {
 		return nil, gots.ErrNoPayload
 	}
 	offset := p.payloadStart()
+	if offset > PacketSize {
+		return nil, gots.ErrInvalidPacketLength
+	}
 	payload := make([]byte, PacketSize-offset)
 	copy(payload, p[offset:])
 	return payload, nil
@@ -267,6 +270,10 @@ func (p *Packet) SetPayload(data []byte) (int, error) {
 	afc := p.AdaptationFieldControl()
 	if afc == AdaptationFieldFlag {
 		return 0, gots.ErrNoPayload
+	}
+	if p.payloadStart() > PacketSize || p.stuffingStart() > PacketSize {
+		// the adaptation field (or a length byte inside it) overruns the packet
+		return 0, gots.ErrInvalidPacketLength
 	}
 	freeSpace := p.freeSpace()
 	if freeSpace > len(data) {
